@@ -329,6 +329,19 @@ func main() {
 	case "selftest":
 		selftest()
 		return
+	case "build":
+		// vf build <pkg> <out> [race] [tags]: developer helper
+		work := filepath.Join(verifDir, ".work", "devbuild")
+		os.MkdirAll(work, 0755)
+		race := len(os.Args) > 4 && os.Args[4] == "race"
+		tags := ""
+		if len(os.Args) > 5 {
+			tags = os.Args[5]
+		}
+		if err := build(work, os.Args[2], tags, race, true, os.Args[3]); err != nil {
+			die(2, "%v", err)
+		}
+		return
 	case "check":
 	default:
 		die(2, "unknown command %s", os.Args[1])
